@@ -15,6 +15,7 @@ LEVEL = 'exploration'
 SHARDS = {'quick': 4, 'thorough': 16}
 TIMEOUT = {'quick': 300, 'thorough': 3000}
 N_HIST = {'quick': 1600, 'thorough': 120000}
+N_BIG = {'quick': 16, 'thorough': 1200}         # scale regime: 70-260 agents per population
 RULE = ('cases: seeded histories of <=60 ops (join, leave, re-join, attach, detach) interleaved over 2-3 live models drawn from '
         '{Environment, SpaceWorld, DiscreteWorld, LineWorld, GridWorld}, 4-5 user component classes, agents with arbitrary subsets '
         '(incl. none), agents may re-join another live model\'s environment (migration); class A (50%): attach/detach only while not resident; class B: resident attach/detach followed by the '
@@ -24,7 +25,7 @@ RULE = ('cases: seeded histories of <=60 ops (join, leave, re-join, attach, deta
 ASSUMPTIONS = ['component classes use identity equality; each component instance belongs to one agent',
                'PositionComponent managed by spatial worlds is outside the claim', 'F1/F2/F3/F6 are known findings (not repaired)']
 FLOORS = {'quick': {'listing_comparisons': 20000, 'classA_histories': 400, 'joins': 3000, 'leaves': 1500, 'rejoins': 500,
-                    'empty_answers': 3000, 'leave_shared_type': 500, 'strict_keyerror': 1000, 'migrations': 300, 'refused_offmap_joins': 200, 'models_completed_mid_history': 150, 'populated_world_installed_later': 80,
+                    'empty_answers': 3000, 'leave_shared_type': 500, 'strict_keyerror': 1000, 'migrations': 300, 'big_populations': 8, 'in_step_leaves_observed': 30, 'explicit_reregistration_rejected': 6, 'refused_offmap_joins': 200, 'models_completed_mid_history': 150, 'populated_world_installed_later': 80,
                     'reach:Core.SystemManager.register_component': 2000, 'reach:Core.SystemManager.deregister_component': 1000},
           'thorough': {'listing_comparisons': 1000000, 'classA_histories': 40000}}
 EXHAUSTIVE = {}
@@ -339,14 +340,125 @@ def case_history(ctx, case):
                     'trace': trace[:14], 'findings_in_history': stopped})
 
 
+
+def case_big(ctx, case):
+    """Scale regime (supported usage only: components are never attached/detached while resident): hundreds of agents, large listings,
+    agents leaving from INSIDE a timestep (a system removes them and the listing is read before the timestep ends), listings drained to
+    nothing and re-created, explicit register_component of an already listed component (documented KeyError)."""
+    rng = ctx.rng('big', case['i'])
+    core, envs = _env()
+    K = comp_classes(core)
+    types = K[:3] + [K[-1]]
+    mm = MModel(core, envs, rng, 'B0')
+    mm.install_later = False
+    mm.real.environment = mm.env
+    names, trace = {}, []
+    n = rng.choice([70, 100, 140, 260])
+    agents = []
+    for j in range(n):
+        a = RefAgent(core.Agent(f'b{j}', mm.real), mm)
+        for T in types[:-1]:
+            if rng.random() < (0.9 if T is types[0] else 0.4):
+                c = T(a.real, mm.real)
+                names[id(c)] = f'{T.__name__}@b{j}'
+                a.real.add_component(c)
+                a.comps[T] = c
+        agents.append(a)
+
+    def join(a):
+        if mm.kind == 'plain':
+            mm.env.add_agent(a.real)
+        else:
+            mm.env.add_agent(a.real, 0, 0, 0)
+        a.resident = True
+        mm.residents.append(a)
+
+    def leave(a):
+        mm.env.remove_agent(a.real.id)
+        a.resident = False
+        mm.residents.remove(a)
+
+    def must_match(what):
+        d = observe(ctx, [mm], types, 0)
+        if d:
+            m_, T, exp, got, why = d[0]
+            raise CaseViolation(f'{what}: {why} for {T.__name__} ({mm.kind}, {len(mm.residents)} residents)', expected=describe(exp, names)[:12],
+                                observed=describe(got, names)[:12], n_expected=len(exp), n_observed=len(got or []), trace=trace[-8:])
+
+    for a in agents:
+        join(a)
+    must_match('after all joined')
+    ctx.count('big_populations')
+    ctx.count('big_agents', n)
+
+    class Reaper(core.System):
+        """Removes agents while a timestep runs; it and a lower-priority system read the listings before the timestep is over."""
+
+        def __init__(self, model, victims):
+            super().__init__('reaper', model, priority=5)
+            self.victims = victims
+
+        def execute(self):
+            for a in self.victims.pop(0) if self.victims else []:
+                leave(a)
+                trace.append(f'in-step leave {a.real.id}')
+            must_match('read by the removing system inside the timestep')
+
+    class Reader(core.System):
+        def execute(self):
+            must_match('read by a lower-priority system in the same timestep')
+
+    rounds = [rng.sample([a for a in agents], k) for k in (3, 1, 5)]
+    flat = set()
+    rounds = [[a for a in r if id(a) not in flat and not flat.add(id(a))] for r in rounds]
+    mm.real.systems.add_system(Reaper(mm.real, rounds))
+    mm.real.systems.add_system(Reader('reader', mm.real, priority=-3))
+    for _ in range(4):
+        mm.real.execute()
+        ctx.count('in_step_leaves_observed')
+    must_match('after the timesteps')
+    # churn: leave from the middle, re-join, in bulk
+    for _ in range(n // 2):
+        a = rng.choice(agents)
+        if a.resident:
+            leave(a)
+        else:
+            join(a)
+    must_match('after bulk churn')
+    # drain everything, listings must report none; then re-create and re-register the founder explicitly
+    for a in list(mm.residents):
+        leave(a)
+    must_match('after the environment was drained')
+    for a in rng.sample(agents, 6):
+        join(a)
+    must_match('after re-creating the listings')
+    founder = next((a for a in mm.residents if types[0] in a.comps), None)
+    if founder is not None:
+        try:
+            mm.real.systems.register_component(founder.comps[types[0]])
+        except KeyError:
+            ctx.count('explicit_reregistration_rejected')
+        else:
+            raise CaseViolation('register_component accepted a component that is already listed (documented: KeyError)', trace=trace[-6:])
+        must_match('after the rejected explicit re-registration')
+        leave(founder)
+        must_match('after the founder left')
+    ctx.distinct(('big', mm.kind, n, case['i']))
+    if case['i'] < 1:
+        ctx.sample({'kind': 'big population', 'world': mm.kind, 'agents': n, 'trace': trace[:8]})
+
+
 def run_case(ctx, case):
-    case_history(ctx, case)
+    (case_big if case.get('kind') == 'big' else case_history)(ctx, case)
 
 
 def run(ctx):
     for i in range(N_HIST[ctx.tier]):
         if ctx.mine(i) and not ctx.full():
             ctx.run_case({'kind': 'hist', 'i': i}, run_case)
+    for i in range(N_BIG[ctx.tier]):
+        if ctx.mine(i) and not ctx.full():
+            ctx.run_case({'kind': 'big', 'i': i}, run_case)
 
 
 def replay(ctx, case):
